@@ -34,8 +34,7 @@ func (flavor) Impl(ops []lc.Op, obs []lc.StepObs) string {
 func (flavor) Oracle(ops []lc.Op, obs []lc.StepObs) []core.Failure {
 	var fails []core.Failure
 	var running *lc.Cfg
-	specStor := 0              // certmagic.Default.Storage by the spec: the storage of the last accepted configuration
-	leftStor := map[int]bool{} // storages a validated / late-rejected / first-ever-rejected configuration set (known finding)
+	specStor := 0 // certmagic.Default.Storage by the spec: the storage of the last accepted configuration
 	for i, o := range obs {
 		op := ops[i]
 		attempted := lc.Attempted(op, running)
@@ -50,26 +49,21 @@ func (flavor) Oracle(ops []lc.Op, obs []lc.StepObs) []core.Failure {
 			fails = append(fails, core.Failure{Class: "accepted-impossible-change",
 				What: fmt.Sprintf("op %d (%s) was accepted although there is nothing it could apply to", i, op)})
 		}
-		// the process-wide default storage
-		if c := storageSetter(op, attempted); c != nil {
-			switch {
-			case op.Kind == 'V' && o.Res == "ok",
-				o.Res == "err:start", o.Res == "err:post", o.Res == "err:admin",
-				!accepted && running == nil:
-				leftStor[c.Stor.Key] = true
-			}
-		}
-		if o.Res == "ok" && attempted != nil && op.Kind != 'V' && op.Kind != 'S' {
+		// the process-wide default storage: after an accepted attempt the new configuration's;
+		// after a dry run and after an attempt rejected once run() was entered, the running
+		// configuration's (caddy's DefaultStorage if nothing runs); otherwise untouched
+		switch {
+		case o.Res == "ok" && attempted != nil && op.Kind != 'V' && op.Kind != 'S':
 			specStor = attempted.Stor.Key
+		case enteredRun(op, o, attempted):
+			specStor = 0
+			if running != nil {
+				specStor = running.Stor.Key
+			}
 		}
 		if o.DStor != specStor {
-			if leftStor[o.DStor] {
-				fails = append(fails, core.Failure{Class: "default-storage-left-by-validated-or-late-rejected-config",
-					What: fmt.Sprintf("op %d (%s → %s): certmagic.Default.Storage is storage %d, the last accepted configuration has storage %d — provisionContext makes the new config's storage the process default before the apps are provisioned; only its own error path restores it (and only if a config is running), Validate and run()'s later failure paths do not", i, op, o.Res, o.DStor, specStor)})
-			} else {
-				fails = append(fails, core.Failure{Class: "default-storage-differs-from-running-config",
-					What: fmt.Sprintf("op %d (%s → %s): certmagic.Default.Storage is storage %d, the last accepted configuration has storage %d", i, op, o.Res, o.DStor, specStor)})
-			}
+			fails = append(fails, core.Failure{Class: "default-storage-differs-from-running-config",
+				What: fmt.Sprintf("op %d (%s → %s): certmagic.Default.Storage is storage %d, expected storage %d (the running configuration's; caddy's default if nothing runs)", i, op, o.Res, o.DStor, specStor)})
 		}
 		wantRaw := "null"
 		if running != nil {
@@ -137,24 +131,18 @@ func runningCid(ops []lc.Op, obs []lc.StepObs) int {
 	return cid
 }
 
-// storageSetter: the configuration whose storage this operation made the process default (nil if
-// the operation did not get that far: no context created, or logging / the storage module failed).
-func storageSetter(op lc.Op, attempted *lc.Cfg) *lc.Cfg {
-	var c *lc.Cfg
-	switch op.Kind {
-	case 'V':
-		cc := op.Cfg
-		c = &cc
-	case 'L', 'P', 'D':
-		c = attempted
+// enteredRun: the operation is a dry run, or a load / change that was rejected after run() had
+// been entered (i.e. not answered by the checks before it).
+func enteredRun(op lc.Op, o lc.StepObs, attempted *lc.Cfg) bool {
+	if op.Kind == 'V' {
+		return true
 	}
-	if c == nil || c.Top == 1 || c.Top == 2 || c.Stor.Fault != 0 {
-		return nil
+	if attempted == nil || (op.Kind != 'L' && op.Kind != 'P' && op.Kind != 'D') {
+		return false
 	}
-	for _, l := range c.Logs {
-		if l.Fault != 0 {
-			return nil
-		}
+	switch o.Res {
+	case "ok", "same", "err:index", "err:decode", "err:path", "err:body":
+		return false
 	}
-	return c
+	return true
 }
